@@ -29,6 +29,8 @@ type lbScn struct {
 		Edge   string `json:"edge"`
 		Last   string `json:"last"`
 		Ow     bool   `json:"ow"`
+		Gk     int    `json:"gk"`
+		Gc     int    `json:"gc"`
 	} `json:"scn"`
 	Lines []struct {
 		Ps []struct {
@@ -74,7 +76,12 @@ func c11Main(args []string) int {
 					b.WriteString(fmt.Sprintf(`<span style="padding:0 %dpx">`, sc.Pad*8))
 				}
 			}
-			b.WriteString(strings.Repeat(string(rune('a'+k)), l))
+			if sc.Gk == k+1 {
+				// an inline box starts inside the word: no break opportunity at its boundary
+				b.WriteString(strings.Repeat(string(rune('a'+k)), sc.Gc) + "<span>" + strings.Repeat(string(rune('a'+k)), l-sc.Gc) + "</span>")
+			} else {
+				b.WriteString(strings.Repeat(string(rune('a'+k)), l))
+			}
 			if sc.Span >= 2 && sc.Span <= len(sc.Words) && k == sc.Span-1 {
 				b.WriteString("</span>")
 			}
@@ -164,6 +171,9 @@ func c11Main(args []string) int {
 		}
 		if sc.Ow {
 			kind += ":overflow-wrap"
+		}
+		if sc.Gk > 0 {
+			kind += ":box-inside-word"
 		}
 		// A second, non-greedy filling rule used ONLY to name a known class of disagreement: an inline box that does not
 		// fit entirely on the rest of the current line but fits on an empty one is moved whole to the next line.
